@@ -12,7 +12,9 @@ PID = "C22"
 
 
 def snapshot(h):
-    return (h.state.fun, h.temp.fun, getattr(h, "state_name", None), getattr(h, "state_fn", None))
+    sf = getattr(h, "state_fn", None)
+    # state_fn may legitimately be the handler or the function it decorates: compare modulo decoration
+    return (h.state.fun, h.temp.fun, getattr(h, "state_name", None), getattr(sf, "__wrapped__", sf))
 
 
 def snap_names(s):
